@@ -11,12 +11,17 @@
 (*   shape   operand structure, Metadata!Refs(shape, n): none, chain of    *)
 (*           forward references, cycle, shared node reached twice,         *)
 (*           backward + self reference, complete graph                     *)
-(*   sparse  IDs 0,1,2 or 2,5,9                                            *)
+(*   sparse  IDs 0,1,2 or 7,8,10,19                                        *)
 (*   perm    textual order of the definitions (a permutation)              *)
 (*   dm      distinct: 0 none, 1 all, 2 only the first                     *)
 (*   inl     0: operands are plain references; 1: every reference is       *)
 (*           wrapped in an inline tuple !{!N}; 2: null, string and empty   *)
 (*           inline tuple operands are appended                            *)
+(*   sp      spelling of the IDs in the text (an ID is its decimal value,  *)
+(*           however many leading zeros it is written with): 0 canonical;  *)
+(*           1 definitions with one leading zero (!00, !07, !08, !010),    *)
+(*           references canonical; 2 references with two leading zeros     *)
+(*           (!0010), definitions canonical; 3 both, differently           *)
 (*   nv      named metadata: 0 none; 1 one definition (before the nodes it *)
 (*           names); 2: !a, !b, !a again; 3: !a three times around !b      *)
 (* Around it the renderer (harness/props/c17) puts a fixed scaffold: a     *)
@@ -54,11 +59,14 @@ M == INSTANCE Metadata WITH MaxDefs <- 0, MaxId <- 0, Variant <- "code", Emit <-
 Perms(n) == {s \in [1..n -> 1..n] : \A i, j \in 1..n : i # j => s[i] # s[j]}
 
 Patterns == UNION {
-  [n : {n}, shape : 1..M!NShapes, sparse : BOOLEAN, perm : Perms(n), dm : 0..2, inl : 0..2, nv : 0..3]
+  [n : {n}, shape : 1..M!NShapes, sparse : BOOLEAN, perm : Perms(n), dm : 0..2, inl : 0..2, nv : 0..3, sp : {0}]
+  \cup
+  \* non-canonical spellings of the IDs, on a slice of the matrix
+  [n : {n}, shape : 1..M!NShapes, sparse : BOOLEAN, perm : Perms(n), dm : {0}, inl : 0..1, nv : {0, 2}, sp : 1..3]
   : n \in 1..MaxN }
 
 ---------------------------------------------------------------------------
-SparseIds == <<2, 5, 9, 14>>
+SparseIds == <<7, 8, 10, 19>>   \* with a leading zero: 07, 08 (no octal number), 010, 019
 IdOf(p, i)   == IF p.sparse THEN SparseIds[i] ELSE i - 1
 IsDistinct(p, i) == p.dm = 1 \/ (p.dm = 2 /\ i = 1)
 
